@@ -743,7 +743,6 @@ func doReplay(c *Check, path, scratch string) int {
 	return 2
 }
 
-
 // conformance builds the repository's own internal tests against the INSTRUMENTED package with no
 // scheduler active (every shim then delegates to the real primitive it wraps) and runs them: the suite
 // must pass exactly as on the plain tree. A guard on the trusted base (DESIGN.md §5).
